@@ -14,6 +14,8 @@ def check(ctx):
     ctx.sub(s1_submit)
     upd = s2_s3_update(ctx)
     ctx.sub(s4_in_full)
+    from . import c06
+    ctx.sub(c06.handler)            # "never dropped": an order is refused for lack of a price only if no data source quotes the asset at that time
     ctx.sub(s6_hours)
 
 
@@ -212,6 +214,18 @@ def s2_s3_update(ctx):
         app = [t for t in T.subterms(batch) if t[0] == 'call' and t[1] == ('ext', 'APPENDED')]
         okb = len(app) == 1 and app[0][2][1][0] == 'tuple' and len(app[0][2][1][1]) == 2 and T.teq(app[0][2][1][1][1], g.value)
         roots = [t for t in T.subterms(batch) if t[0] == 'list' and t[1] == ()]
+        keyed = [t for t in T.subterms(batch) if t[0] == 'call' and t[1] == ('ext', 'SETITEM') and len(t[2]) == 3
+                 and any(T.teq(s_, g.value) for s_ in T.subterms(t[2][2]))]
+        if not app and keyed:
+            k = keyed[0][2][1]
+            from_order = any(T.teq(s_, g.value) for s_ in T.subterms(k))
+            # a keyed batch holds one entry per key: it keeps every dequeued order only if no two pending orders can share the key.
+            # A key computed from the order's own (caller-settable) fields gives no such guarantee: the later order silently replaces the earlier one.
+            if from_order:
+                ctx.violation('C04.S3', 'the executed batch keeps every dequeued order (nothing dropped or added)', g.site,
+                              'the batch is a mapping keyed by %s: two pending orders with equal keys collapse into one and the other is dropped' % fmt(k)[:120],
+                              key='C04.S3|batch')
+                continue
         if not app:
             ctx.undecided('C04.S3', 'the executed batch is built by appending the dequeued orders to a fresh list', g.site,
                           'unrecognised construction of the batch: %s' % fmt(batch)[:200])
